@@ -109,12 +109,12 @@ def write_map(fmt, addresses, d):
 MAP_FORMATS = ('z80', 'specemu', 'rzxplay', 'fuse', 'spud')
 
 
-def exec_trace(data, entry, start, end, horizon=64):
+def exec_trace(data, entry, start, end, horizon=64, org=None):
     """Addresses of the instructions executed from `entry` (reference model), while
     execution stays inside [start, end)."""
     mem = [0] * 65536
     for i, b in enumerate(data):
-        mem[ORG + i] = b
+        mem[(ORG if org is None else org) + i] = b
     st = z80ref.State(PC=entry, SP=0xF000, B=2)
     out = []
     for _ in range(horizon):
@@ -131,21 +131,22 @@ def exec_trace(data, entry, start, end, horizon=64):
 _BRANCH = re.compile(r'^(JP|JR|CALL|DJNZ)( [A-Z]+,| )(\d+)$')
 
 
-def self_overlapping(data, addrs, end):
+def self_overlapping(data, addrs, end, org=None):
     """True if the code reachable from the trace overlaps itself: two instructions with different start
     addresses share a byte, among the executed instructions and those reached from them statically (both
     outcomes of every conditional branch, CALL targets and returns, inside the range).  Such a program has
     no disassembly without overlapping instructions - sna2ctl (by design) marks the target of a jump from
     executed code as code - so the sna2skool clauses are not demanded of it; termination, tiling and
     'every mapped address in a code block' still are."""
+    org = ORG if org is None else org
     mem = [0] * 65536
     for i, b in enumerate(data):
-        mem[ORG + i] = b
+        mem[org + i] = b
     seen = {}
     work = list(addrs)
     while work:
         a = work.pop()
-        if a in seen or not ORG <= a < end:
+        if a in seen or not org <= a < end:
             continue
         ins = z80ref.decode(mem, a)
         seen[a] = a + ins.length
@@ -362,6 +363,21 @@ def run_one(kind, spec, tier):
             p, n = check(data, org, 65536, opts, org=org)
             yield ('top/{}/{}'.format(name, ' '.join(opts) or '-'),
                    {'kind': 'plain', 'raw': list(data), 'org': org, 'start': org, 'end': 65536, 'opts': list(opts)}, p, n)
+        # code maps: the execution trace from the first byte, and the first address alone (the code block is then
+        # extended by sna2ctl up to the 64K boundary)
+        trace = exec_trace(data, org, org, 65536, org=org)
+        for mi, addrs in enumerate(([org], trace) if trace and trace != [org] else ([org],)):
+            ovl = self_overlapping(data, addrs, 65536, org=org)
+            for fmt in ('z80', 'rzxplay'):
+                for opts in ((), ('-C',), ('-C', '-r')):
+                    if '-r' in opts and data[-1] == 0xCF:
+                        # with -r, RST 8 owns the byte that follows it: at 65535 it is an instruction cut off by the
+                        # boundary (data), so an execution trace containing it is outside the coverage clause
+                        continue
+                    p, n = check(data, org, 65536, opts, addrs, fmt, org=org, no_skool=ovl, tiling_only=(mi == 0 and addrs != trace))
+                    yield ('top/{}/map{}/{}/{}'.format(name, mi, fmt, ' '.join(opts) or '-'),
+                           {'kind': 'map', 'raw': list(data), 'org': org, 'start': org, 'end': 65536, 'opts': list(opts), 'map': addrs, 'fmt': fmt,
+                            'no_skool': ovl, 'tiling_only': (mi == 0 and addrs != trace)}, p, n)
     elif kind == 'opsweep':
         prefix, op, fi = spec
         data = bytes((0xDD, 0x2E, 0x08, 0x7E, 0x23) + tuple(prefix) + (op,) + FOLLOWERS[fi])
